@@ -136,13 +136,18 @@ Definition keepf (pinned q : quirks) (pool : list request) (dump : list key) (k 
 Section Crun.
   Variables (t : tabs) (pinned q : quirks) (sv : server) (pool : list request).
 
-  Fixpoint crun (c : cache) (steps : list (request * list key)) : list (outcome * list key) :=
+  (** per step: outcome, key set after the step (after applying the observed eviction), and
+      whether a key stored by this very step is in the observed key set (a cache never drops
+      the key it has just been given; "never stored" must not pass for "stored and evicted") *)
+  Fixpoint crun (c : cache) (steps : list (request * list key)) : list (outcome * list key * bool) :=
     match steps with
     | [] => []
     | (rq, dump) :: rest =>
         let '(r, c') := search_cached (o_re t) (o_ip t) q sv c rq in
         let c'' := evict (keepf pinned q pool dump) c' in
-        (dispatch (o_rep t) sv rq r, map fst c'') :: crun c'' rest
+        let k := mk_key q rq in
+        let stored := negb (isSome (clookup k c)) && isSome (clookup k c') in
+        (dispatch (o_rep t) sv rq r, map fst c'', negb stored || isSome (clookup k c'')) :: crun c'' rest
     end.
 End Crun.
 (* NB: the Section variable order of Mux.v decides the argument order; see the
@@ -192,7 +197,7 @@ Definition subsets : list (list N) :=
 
 (** the model with flag set [q] is transparent on these steps *)
 Definition transparent_on (pinned q : quirks) (c : cache_case) (steps : list (request * list key)) : bool :=
-  list_eqb obs_eqb (map (fun x => obs_of (fst x)) (cached_model pinned q c steps)) (twin_model c steps).
+  list_eqb obs_eqb (map (fun x => obs_of (fst (fst x))) (cached_model pinned q c steps)) (twin_model c steps).
 
 Definition attribute (pinned : quirks) (c : cache_case) : N :=
   match first_diff (cc_obs c) with
@@ -235,9 +240,10 @@ Definition check_cache (pinned : quirks) (c : cache_case) : result :=
     let m := cached_model pinned pinned c steps in
     let corr :=
       ok_tabs && ok_host && ok_seq && valid_server (cc_sv c)
-      && list_eqb obs_eqb (map (fun x => obs_of (fst x)) m) (map (fun x => fst (fst x)) (cc_obs c))
+      && list_eqb obs_eqb (map (fun x => obs_of (fst (fst x))) m) (map (fun x => fst (fst x)) (cc_obs c))
       && list_eqb obs_eqb (twin_model c steps) (map (fun x => snd (fst x)) (cc_obs c))
-      && list_eqb keyset_eqb (map snd m) (map snd (cc_obs c)) in
+      && list_eqb keyset_eqb (map (fun x => snd (fst x)) m) (map snd (cc_obs c))
+      && forallb (fun x => snd x) m in
     let prop := forallb (fun x => obs_eqb (fst (fst x)) (snd (fst x))) (cc_obs c) in
     let twin := map (fun x => snd (fst x)) (cc_obs c) in
     (corr, prop,
@@ -251,6 +257,6 @@ Definition check_cache (pinned : quirks) (c : cache_case) : result :=
 
 Definition explain_cache (pinned : quirks) (c : cache_case) :=
   let steps := steps_of c in
-  (map (fun x => (obs_of (fst x), snd x)) (cached_model pinned pinned c steps), twin_model c steps,
+  (map (fun x => (obs_of (fst (fst x)), snd (fst x), snd x)) (cached_model pinned pinned c steps), twin_model c steps,
    first_diff (cc_obs c), attribute pinned c,
    forallb (complete_req (cc_tabs c) (cc_sv c)) (cc_pool c), valid_server (cc_sv c)).
